@@ -24,25 +24,29 @@ BadStore(c) == /\ Count(inflight, c) > 0
                /\ applied' = applied \cup {<<c, cacheCode>>}
                /\ UNCHANGED <<cacheCode, sending, shown>>
 
-Deliver(c) == IF Variant = "nocheck" THEN BadStore(c) /\ Log("deliver", c, "apply")
-              ELSE \/ (IF Rec THEN LateApplySend(c) ELSE LateApply(c)) /\ Log("deliver", c, "apply")
-                   \/ LateDrop(c) /\ Log("deliver", c, "drop")
-
 Init == HInit /\ hist = <<>>
-Next == \/ \E c \in Codes :
-              \/ GetHit(c) /\ Log("get", c, "hit")
-              \/ NeedsLookup(c) /\ GetMissFull(c) /\ Log("get", c, "full")
-              \/ NeedsLookup(c) /\ GetMissPartial(c) /\ Log("get", c, "partial")
-              \/ ~NeedsLookup(c) /\ GetMissFinal(c) /\ Log("get", c, "final")
-              \/ Deliver(c)
-        \/ ~Rec /\ Send /\ UNCHANGED hist
-        \/ Recv /\ Log("recv", 0, "-")
-        \/ Invalidate /\ Log("inv", 0, "-")
+\* one named action per kind of step (TLC reports coverage per name)
+DoGetHit     == \E c \in Codes : GetHit(c) /\ Log("get", c, "hit")
+DoGetFull    == \E c \in Codes : NeedsLookup(c) /\ GetMissFull(c) /\ Log("get", c, "full")
+DoGetPartial == \E c \in Codes : NeedsLookup(c) /\ GetMissPartial(c) /\ Log("get", c, "partial")
+DoGetFinal   == \E c \in Codes : ~NeedsLookup(c) /\ GetMissFinal(c) /\ Log("get", c, "final")
+DoApply      == \E c \in Codes : Variant = "asis" /\ (IF Rec THEN LateApplySend(c) ELSE LateApply(c)) /\ Log("deliver", c, "apply")
+DoDrop       == \E c \in Codes : Variant = "asis" /\ LateDrop(c) /\ Log("deliver", c, "drop")
+DoBadStore   == \E c \in Codes : Variant = "nocheck" /\ BadStore(c) /\ Log("deliver", c, "apply")
+DoSend       == ~Rec /\ Send /\ UNCHANGED hist
+DoRecv       == Recv /\ Log("recv", 0, "-")
+DoInvalidate == Invalidate /\ Log("inv", 0, "-")
+Next == DoGetHit \/ DoGetFull \/ DoGetPartial \/ DoGetFinal \/ DoApply \/ DoDrop \/ DoBadStore
+        \/ DoSend \/ DoRecv \/ DoInvalidate
 Spec == Init /\ [][Next]_vars
 
 Bound == /\ BagSize(inflight) <= MaxInflight /\ sending <= MaxInflight
          /\ (Rec => Len(hist) <= Depth)
 Emit == (Rec /\ Len(hist) = Depth) => PrintT(ToJson(hist))
+\* transition cover (VIEW hides hist): one shortest path to every reachable state, extended by every
+\* transition leaving it -- "one implementation test per transition of the model"
+View == hvars
+EmitT == PrintT(ToJson(hist'))
 \* the model follows the code: every step of Next is a step of the specification proper
 Refines == [][HNext \/ (Rec /\ \E c \in Codes : LateApplySend(c)) \/ Variant = "nocheck"]_hvars
 =============================================================================
